@@ -31,14 +31,17 @@ fn main() {
     let mut fetch = String::new();
     let mut recv = String::new();
     let mut list = String::new();
+    let mut qi = 0u32;
     for line in src.lines() {
         let line = line.trim();
         if line.is_empty() || line.starts_with('#') { continue; }
+        qi += 1;
         let (is_recv, q) = match line.strip_prefix("R ") { Some(q) => (true, q), None => (false, line) };
         let toks: Vec<&str> = q.split_whitespace().collect();
         let ty = parse(&mut toks.iter());
         let key = toks.join(" ");
-        writeln!(fetch, "        {key:?} => Some(Box::new(FetchP::<{ty}>::new(kind))),").unwrap();
+        let wrap = qi % 4;
+        writeln!(fetch, "        {key:?} => Some(Box::new(FetchP::<{ty}>::new(kind, {wrap}))),").unwrap();
         if is_recv {
             writeln!(recv, "        {key:?} => make_recv_t_q::<{ty}>(tag, mutable),").unwrap();
         }
